@@ -105,6 +105,44 @@ func ruleCoreIdentity(c *Ctx) []Obligation {
 						return true
 					})
 				}
+				if !incHere {
+					// … or in a helper this function calls unconditionally (a top-level statement of its body) and
+					// that increments the field unconditionally itself
+					topInc := func(d *ast.FuncDecl) bool {
+						for _, st := range d.Body.List {
+							switch x := st.(type) {
+							case *ast.IncDecStmt:
+								if s, ok := ast.Unparen(x.X).(*ast.SelectorExpr); ok && info.Uses[s.Sel] == fv && x.Tok == token.INC {
+									return true
+								}
+							case *ast.AssignStmt:
+								if x.Tok == token.ADD_ASSIGN && len(x.Lhs) == 1 {
+									if s, ok := ast.Unparen(x.Lhs[0]).(*ast.SelectorExpr); ok && info.Uses[s.Sel] == fv {
+										return true
+									}
+								}
+							}
+						}
+						return false
+					}
+					for _, st := range fd.Body.List {
+						es, ok := st.(*ast.ExprStmt)
+						if !ok {
+							continue
+						}
+						call, ok := es.X.(*ast.CallExpr)
+						if !ok {
+							continue
+						}
+						if callee := CalleeOf(info, call); callee != nil {
+							for _, d := range AllFuncDecls(p) {
+								if d.Body != nil && info.Defs[d.Name] == callee && topInc(d) {
+									incHere = true
+								}
+							}
+						}
+					}
+				}
 				switch {
 				case len(bad) > 0:
 					o.Status, o.Detail = Violated, "counter field "+fv.Name()+" is not monotonic: "+strings.Join(bad, "; ")
